@@ -19,10 +19,7 @@ Definition decode (inp : list Z) : Z * list node :=
   | _ => (0, [])
   end.
 
-Definition obs_of (ns : list node) (es : list entry) : list Z :=
-  map (fun k => match runtime_of k es with Some r => r | None => -1 end)
-      (map Z.of_nat (seq 1 (length ns))).
-
+(* [obs_of] (runtime per name rank 1..k) is defined in Spec.v, where the theorems use it *)
 (* the observable carries two runs of the implementation (second one: fresh tree, reverse
    insertion order, another random map iteration order) *)
 Definition run_case (inp : list Z) : list Z :=
